@@ -304,12 +304,23 @@ class ParseContext:
     else:
       module = '.'.join([source.partial_path(), *inner_names])
 
+    import_source = self._import_source(source, attr_names)
     original = _inverse_lookup(fn_or_cls)
+    if original is not None:
+      # Re-registration (of a class, to pick up a newly registered method): keep
+      # the name it is already known by, which may come from another import of
+      # the same module, so that its existing bindings stay attached to it.
+      fn_or_cls_name, module = original.name, original.module
+      import_source = original.import_source
+    elif inspect.isfunction(fn_or_cls) and inspect.isclass(path_attrs[-1]):  # pytype: disable=not-supported-yet
+      parent = _inverse_lookup(path_attrs[-1])
+      if parent is not None:  # A method lives under the name of its class.
+        module = parent.selector
     _make_configurable(
         fn_or_cls,
         name=fn_or_cls_name,
         module=module,
-        import_source=self._import_source(source, attr_names),
+        import_source=import_source,
         avoid_class_mutation=True)
     if original is not None:  # We've re-registered something...
       for reference in iterate_references(_CONFIG, to=original.wrapper):
